@@ -218,9 +218,9 @@ def _run(ctx):
         rec = set(ctx.roots(cv[4][1]))
         sp = common.span_of_block_term(c, cb)
         if c.path == swap.path:
-            to_i = common.param_index_of_type(swap, r"^std::option::Option<cosmwasm_std::\S*Addr>$")
-            s_i = common.param_index_of_type(swap, r"^cosmwasm_std::\S*Addr$")
-            want = {"or(%s;%s)" % (P_(swap, to_i), P_(swap, s_i))}
+            to_i = common.param_access(P, swap, r"^std::option::Option<cosmwasm_std::\S*Addr>$")
+            s_i = common.param_access(P, swap, r"^cosmwasm_std::\S*Addr$")
+            want = {"or(%s;%s)" % (to_i.some_root(), s_i.root())} if to_i is not None and s_i is not None else {"?"}
         elif c.path == wd.path:
             s_i = common.param_index_of_type(wd, r"^cosmwasm_std::\S*Addr$")
             want = {P_(wd, s_i)}
